@@ -468,7 +468,7 @@ def run(ctx):
                 "ScheduledJobs(nil). Sources: random sequences (20 keys in 4 groups incl. an empty name and a non-ASCII name, priorities "
                 "{1,2,2,3,3,0,-5,MaxInt64,MaxInt64-1,MinInt64,2^40}, Replace and Suspended on/off, entries minted by the verif hook and "
                 "through ScheduleJob on a never-started scheduler); all call sequences of a fixed length over 2-3 keys x {1,2,MaxInt64} x "
-                "Replace on/off; a matcher matrix (all 138 single matchers, all pairs, some triples on a 9-entry queue). "
+                "Replace on/off; a matcher matrix (all 130 single matchers, all 16900 pairs, 260 triples on a 9-entry queue). "
                 "non-trivial = one call sequence. concurrent: 16 goroutines, three round types, race detector on",
         "samples": [open(files[0][1]).readlines()[40][:400]],
         "exhaustive": False,
@@ -510,6 +510,13 @@ def run(ctx):
         "entries reach the default queue as *scheduledJob (foreign ScheduledJob implementations panic in priorityQueue.Push by design)",
     ])
     return 1 if ctx.violations else 0
+
+
+def setup():
+    """./check --setup: pre-build the race-enabled harness and the extracted model's driver."""
+    vlib.go_build("queueh", race=True)
+    if os.path.exists(os.path.join(vlib.VERIF, "ocaml", PROJ, "gen", "qmodel.ml")):
+        vlib.ocaml_build(PROJ)
 
 
 def replay(ctx, path):
